@@ -57,7 +57,11 @@ def tiling_error(password, sections):
         if label == 'W':
             ok = False
             chunk = password[pos:pos + len(text)]
-            if lower_keep_length(chunk) == text or chunk.lower() == text:
+            # Greek capital sigma lower-cases to 'ς' (whole-string lower(), word-final) or 'σ' (character by character, which is what
+            # the code does when another character of the password changes length under lower()): both are the lower-cased text
+            fs = lambda x: x.replace('\u03c2', '\u03c3')
+            if lower_keep_length(chunk) == text or chunk.lower() == text or fs(lower_keep_length(chunk)) == fs(text) or \
+                    ''.join(c.lower() if len(c.lower()) == 1 else c for c in chunk) == text:
                 pos += len(text)
                 ok = True
             if not ok:
